@@ -373,17 +373,60 @@ def orders(sys, rng, max_perm_cons=4, n_random=6, n_obj_orders=2):
     return uniq
 
 
-def c27_violation(sys, outs):
-    """outs: list of ((obj_order, con_order), outcome).  The property: success and slices agree."""
+def c27_disagreement(outs):
+    """first pair of orders whose results disagree: (detail, order_a, order_b) or None"""
     (o0, c0), base = outs[0]
     for (oo, co), out in outs[1:]:
         if ok(out) != ok(base):
             a, b = ((o0, c0), (oo, co)) if ok(base) else ((oo, co), (o0, c0))
-            return (f"placement succeeds with object order {a[0]} / constraint order {a[1]} but fails with "
-                    f"{b[0]} / {b[1]}")
+            return (f"placement succeeds with object order {list(a[0])} / constraint order {list(a[1])} but fails with "
+                    f"{list(b[0])} / {list(b[1])}", a, b)
         if ok(base) and out["slices"] != base["slices"]:
-            return f"slices differ between orders {(o0, c0)} and {(oo, co)}: {base['slices']} vs {out['slices']}"
+            return (f"slices differ between orders {(o0, c0)} and {(oo, co)}: {base['slices']} vs {out['slices']}",
+                    (o0, c0), (oo, co))
     return None
+
+
+def c27_violation(sys, outs):
+    """outs: list of ((obj_order, con_order), outcome).  The property: success and slices agree."""
+    d = c27_disagreement(outs)
+    return d[0] if d else None
+
+
+def shrink_pair(sys, order_a, order_b, fails_pair, budget=200):
+    """shrink a system on which two orders disagree, keeping the relative order of what remains.
+    The system is first rewritten in order A; order B becomes a permutation relative to it."""
+    oa, ca = list(order_a[0]), list(order_a[1])
+    ob, cb = list(order_b[0]), list(order_b[1])
+    cur = materialize(sys, oa, ca)
+    orel = [oa.index(i) for i in ob]
+    crel = [ca.index(k) for k in cb]
+
+    def drop(perm, j):
+        return [x - 1 if x > j else x for x in perm if x != j]
+
+    if not fails_pair(cur, orel, crel):
+        return None
+    progress = True
+    while progress and budget > 0:
+        progress = False
+        for k in range(len(cur["constraints"]) - 1, -1, -1):
+            cand = json_copy(cur)
+            cand["constraints"].pop(k)
+            c2 = drop(crel, k)
+            budget -= 1
+            if fails_pair(cand, orel, c2):
+                cur, crel, progress = cand, c2, True
+        for i in range(len(cur["objects"]) - 1, -1, -1):
+            cand = _drop_object(cur, i)
+            if cand is None:
+                continue
+            o2 = drop(orel, i)
+            budget -= 1
+            if fails_pair(cand, o2, crel):
+                cur, orel, progress = cand, o2, True
+    ident = (list(range(len(cur["objects"]))), list(range(len(cur["constraints"]))))
+    return cur, [ident, (orel, crel)]
 
 
 # ------------------------------------------------------------------------------------------------ generator
@@ -447,6 +490,8 @@ def gen_system(rng, big=False):
             cons.append({"t": "R", "o": 0, "axes": [a], "sides": [True], "coords": [edges[a][-1]]})
         elif r < 0.8 and explicit_uniform:
             cons.append({"t": "G", "o": 0, "axes": [a], "sides": [True], "coords": [shape[a]]})
+        else:
+            tags["vol_bound_missing"] = 1          # never settles: every pass "extends" to an unknown volume size
         tags["vol_bound_from_constraint"] = 1
     target = [[(0, shape[a]) for a in range(3)]]
     for i in range(1, n_other + 1):
@@ -674,6 +719,8 @@ def gen_system(rng, big=False):
     if rng.chance(0.07):
         max_iter = rng.randint(0, 3)
         tags["small_max_iter"] = 1
+    elif tags.get("vol_bound_missing"):
+        max_iter = rng.randint(4, 40)              # keep the non-terminating case cheap
     sys = {"grid": grid, "objects": objs, "constraints": cons, "max_iter": max_iter}
     tags["constraints"] = len(cons)
     return sys, tags
@@ -761,6 +808,8 @@ def materialize(sys, oo=None, co=None):
 
 def json_copy(x):
     import json
+    if isinstance(x, dict):
+        x = {k: v for k, v in x.items() if not str(k).startswith("_")}      # drop the caches (_built, _grid)
     return json.loads(json.dumps(x))
 
 
